@@ -66,7 +66,9 @@ def lineMergeCircle (s e : Pt) (b : Bool) (c : Pt) (r : Int) (filled : Bool) : O
   let closeEnd := decide (Pt.dist2 e c ≤ th)
   if r ≤ 750 && (closeStart || closeEnd) then
     let marker := if filled then Marker.circle else if r ≥ 500 then Marker.bigOpenCircle else Marker.openCircle
-    if closeEnd then some (.markerLine s c b none (some marker))
+    -- the end point nearer to the bullet is moved to its centre
+    let endNearer := decide (Pt.dist2 e c ≤ Pt.dist2 s c)
+    if closeEnd && (endNearer || !closeStart) then some (.markerLine s c b none (some marker))
     else some (.markerLine e c b none (some marker))
   else none
 
